@@ -1,5 +1,136 @@
-From Coq Require Import List Bool Arith.
-From PAFC14 Require Import Model Proofs.
+(* C14 property theorems: statements only, each closed by `exact`.
+   Model: coq/C14/Model.v.  A schedule is a list of scheduling choices ([F w]: worker w finishes its next job,
+   [P]: one poll of the main loop; [T w]: worker w takes the next job of run_jobs, [JP]: one poll); every
+   theorem quantifies over ALL schedules, batch contents, process counts (and sequences of batches). *)
+From Coq Require Import List Bool Arith Permutation.
+From PAFC14 Require Import Model Lib Proofs1 Proofs2 Proofs3 Proofs4 Witness.
 Import ListNotations.
-Theorem C14_placeholder : forall (A : Type) (l : list A) i f, length (upd l i f) = length l.
-Proof. exact @placeholder_upd_length. Qed.
+
+(* ---- SneakyPool.map as it is (results yielded in the order of discovery) ---- *)
+
+(* FULL: a finished call on a pool with empty queues has taken exactly the jobs of this batch (as a multiset),
+   has evaluated each of them exactly once, and leaves every queue empty *)
+Theorem C14_map_once_no_residue : forall (R E : Type) n (jobs : list (nat * outcome R E)) (p0 : pool R E) sched p m,
+  0 < n -> wf n p0 -> clean p0 -> run sched (start jobs p0) = (p, m) -> done m = true ->
+  Permutation (taken m) jobs /\ clean p /\ wf n p /\ (exists ev, elog p = elog p0 ++ ev /\ Permutation ev jobs).
+Proof. exact @map_conservation. Qed.
+
+(* FULL: the yielded values are a permutation of the serial results *)
+Theorem C14_map_yields_permutation : forall (R E : Type) n (jobs : list (nat * outcome R E)) (p0 : pool R E) sched p m,
+  0 < n -> wf n p0 -> clean p0 -> run sched (start jobs p0) = (p, m) -> done m = true ->
+  Permutation (yields (taken m)) (yields jobs).
+Proof. exact @map_yields_permutation. Qed.
+
+(* FULL: an exception is raised iff a job of this batch failed, and it is one of this batch's exceptions *)
+Theorem C14_map_exception_reported : forall (R E : Type) n (jobs : list (nat * outcome R E)) (p0 : pool R E) sched p m,
+  0 < n -> wf n p0 -> clean p0 -> run sched (start jobs p0) = (p, m) -> done m = true ->
+  (exc m = None <-> (forall it, In it jobs -> is_exc it = false)) /\
+  (forall it, exc m = Some it -> In it jobs /\ is_exc it = true).
+Proof. exact @map_exception_reported. Qed.
+
+(* FULL: every sequence of batches on one pool, failures included: each finished call hands back its own batch
+   (values a permutation of its serial results, each input evaluated once, all queues empty afterwards, an
+   exception iff one of ITS jobs failed) -- nothing can be attributed to a later batch *)
+Theorem C14_map_batches_no_residue : forall (R E : Type) n (bs : list (list (outcome R E) * list action)) (p0 : pool R E),
+  0 < n -> wf n p0 -> clean p0 ->
+  Forall (fun o => bo_done o = true) (batches false bs p0) ->
+  Forall2 (fun b o => batch_good (fst b) o) bs (batches false bs p0).
+Proof. exact @map_batches. Qed.
+
+(* REFUTED (the finding): positional order -- two processes, the second finishes first *)
+Theorem C14_map_order_refuted :
+  exists (outs : list (outcome nat nat)) (sched : list action) p m,
+    run sched (start (enum outs) (fresh 2)) = (p, m) /\ done m = true /\
+    yields (taken m) <> yields (enum outs).
+Proof. exact map_order_refuted. Qed.
+
+(* PARTIAL: order holds per process (the jobs of process w are discovered in input order) ... *)
+Theorem C14_map_worker_order_partial : forall (R E : Type) n (jobs : list (nat * outcome R E)) (p0 : pool R E) sched p m w,
+  0 < n -> wf n p0 -> clean p0 -> run sched (start jobs p0) = (p, m) -> done m = true -> w < n ->
+  filterw n w (taken m) = filterw n w jobs.
+Proof. exact @map_worker_order. Qed.
+
+(* PARTIAL: ... hence with ONE process map equals serial evaluation, by position, exception included *)
+Theorem C14_map_order_single_partial : forall (R E : Type) (jobs : list (nat * outcome R E)) (p0 : pool R E) sched p m,
+  wf 1 p0 -> clean p0 -> run sched (start jobs p0) = (p, m) -> done m = true ->
+  taken m = jobs /\ yields (taken m) = yields jobs /\ exc m = last_exc jobs None.
+Proof. exact @map_order_single. Qed.
+
+(* ---- the repaired map (proposed_fixes/C14-map-order.diff): ordered blocking collection ---- *)
+
+(* FULL: every schedule, every number of processes: items taken in input order, serial exception, each job
+   evaluated once, queues empty *)
+Theorem C14_mapfix_order : forall (R E : Type) n (jobs : list (nat * outcome R E)) (p0 : pool R E) sched p f,
+  0 < n -> wf n p0 -> clean p0 -> frun sched (fstart jobs p0) = (p, f) -> fdone f = true ->
+  ftaken f = jobs /\ fexc f = last_exc jobs None /\ clean p /\ wf n p /\
+  (exists ev, elog p = elog p0 ++ ev /\ Permutation ev jobs).
+Proof. exact @mapfix_order. Qed.
+
+Theorem C14_mapfix_batches : forall (R E : Type) n (bs : list (list (outcome R E) * list action)) (p0 : pool R E),
+  0 < n -> wf n p0 -> clean p0 ->
+  Forall (fun o => bo_done o = true) (batches true bs p0) ->
+  Forall2 (fun b o => batch_exact (fst b) o) bs (batches true bs p0).
+Proof. exact @mapfix_batches. Qed.
+
+(* ---- Process.run_jobs ---- *)
+
+(* FULL: every schedule: what has been delivered is a sub-multiset of the jobs (nothing invented or doubled) *)
+Theorem C14_jobs_conservation : forall (R E : Type) nw (jobs : list (nat * outcome R E)) sched,
+  exists rest, Permutation jobs (jtaken (jrun sched (jstart nw jobs)) ++ rest).
+Proof. exact @jobs_conservation. Qed.
+
+(* FULL: if no job fails a finished call has delivered every result exactly once and raises nothing *)
+Theorem C14_jobs_complete : forall (R E : Type) nw (jobs : list (nat * outcome R E)) sched s,
+  s = jrun sched (jstart nw jobs) -> jdone s = true -> (forall it, In it jobs -> is_exc it = false) ->
+  Permutation (jtaken s) jobs /\ jexc s = None.
+Proof. exact @jobs_complete. Qed.
+
+(* FULL: if a job fails a finished call raises, with an exception of one of its own failing jobs *)
+Theorem C14_jobs_exception_reported : forall (R E : Type) nw (jobs : list (nat * outcome R E)) sched s,
+  s = jrun sched (jstart nw jobs) -> jdone s = true -> (exists it, In it jobs /\ is_exc it = true) ->
+  exists it, jexc s = Some it /\ In it jobs /\ is_exc it = true.
+Proof. exact @jobs_exception_reported. Qed.
+
+(* what a caller observes (it stops looking when the generator ends) is a state of the full system *)
+Theorem C14_jobs_observation : forall (R E : Type) sched (s : jstate R E),
+  exists sched', jrun_obs sched s = jrun sched' s.
+Proof. exact @jrun_obs_prefix. Qed.
+
+(* ---- callers keyed by job number: ResultBuilder.add / Sensitivity.run sorted(results) ---- *)
+Theorem C14_keyed_summaries : forall (R E : Type) (outs : list (outcome R E)) (l : list (nat * outcome R E)),
+  Permutation l (enum outs) -> summaries (length outs) l = map Some outs.
+Proof. exact @keyed_summaries. Qed.
+
+Theorem C14_keyed_sorted : forall (R E : Type) (outs : list (outcome R E)) (l : list (nat * outcome R E)),
+  Permutation l (enum outs) -> sorted_results l = enum outs.
+Proof. exact @keyed_sorted. Qed.
+
+(* FULL: run_jobs + keyed callers: every schedule gives the serial results in job order *)
+Theorem C14_jobs_keyed_serial : forall (R E : Type) nw (outs : list (outcome R E)) sched s,
+  s = jrun sched (jstart nw (enum outs)) -> jdone s = true -> (forall e, ~ In (Exc e) outs) ->
+  summaries (length outs) (good (jtaken s)) = map Some outs /\ sorted_results (good (jtaken s)) = enum outs.
+Proof. exact @jobs_keyed_serial. Qed.
+
+(* ---- AbstractInitializer.samples_from_model (zip of map with the points, by position) ---- *)
+
+(* PARTIAL (current map: one core only) / FULL (repaired map: any number of cores), [inorder]: the accepted
+   (point, value) pairs are the valid points of a prefix of the stream, in order, each with its own value *)
+Theorem C14_init_serial_partial : forall (X V E : Type) fixed n total (stream : list (X * outcome (option V) E)) scheds res,
+  inorder fixed n -> samples_from_model fixed n total stream scheds = IOk res ->
+  (exists k, res = valid (firstn k stream)) /\ length res = total /\
+  (forall x v, In (x, v) res -> In (x, Ok (Some v)) stream).
+Proof. exact @init_serial. Qed.
+
+(* REFUTED (same finding): two cores, current map: values attached to the wrong points *)
+Theorem C14_init_pairs_refuted :
+  exists (stream : list (nat * outcome (option nat) nat)) scheds res,
+    samples_from_model false 2 2 stream scheds = IOk res /\
+    ~ (forall x v, In (x, v) res -> In (x, Ok (Some v)) stream).
+Proof. exact init_pairs_refuted. Qed.
+
+Print Assumptions C14_map_once_no_residue.
+Print Assumptions C14_map_batches_no_residue.
+Print Assumptions C14_map_order_refuted.
+Print Assumptions C14_mapfix_order.
+Print Assumptions C14_jobs_keyed_serial.
+Print Assumptions C14_init_serial_partial.
